@@ -665,7 +665,9 @@ func (self *Analyzer) importItem(node pAst.ImportStatement) ast.AnalyzedImport {
 				Ident: pAst.NewSpannedIdent(item.Ident, item.Span),
 				Type:  imported.Type.SetSpan(item.Span),
 			})
-			if prev := self.currentModule.addVar(item.Ident, NewVar(imported.Type.SetSpan(item.Span), item.Span, ImportedVariableOriginKind, false), false); prev != nil {
+			hostVar := NewVar(imported.Type.SetSpan(item.Span), item.Span, ImportedVariableOriginKind, false)
+			hostVar.FromHost = true
+			if prev := self.currentModule.addVar(item.Ident, hostVar, false); prev != nil {
 				self.error(fmt.Sprintf("Name '%s' already exists in current scope", item.Ident), nil, item.Span)
 			}
 		}
